@@ -3,7 +3,8 @@ import Proofs.GenTables
 #print axioms Xsel.C02.exec_refines_spec
 #print axioms Xsel.C02.run_refines_spec
 #print axioms Xsel.C02.preds_refine_spec
-#print axioms Xsel.C02.unbound_prefix_deviation
+#print axioms Xsel.C02.unbound_prefix_fails
+#print axioms Xsel.C02.unbound_prefix_fails_in_both
 #print axioms Xsel.C02.applyPred_def
 #print axioms Xsel.C02.last_is_size
 #print axioms Xsel.C02.position_is_index
